@@ -352,6 +352,30 @@ def convertCdsFrom (c : Ctx) : List GeneView → Nat → List Orf
 /-- `convert_cds_features(record, region.cds_children, …)` -/
 def convertCds (c : Ctx) (genes : List GeneView) : List Orf := convertCdsFrom c genes 0
 
+/-! ### the constructors behind the well-formedness hypotheses -/
+
+inductive InitResult where
+  | ok | valueError | assertion
+deriving DecidableEq, Repr, Inhabited
+
+/-- `location_contains_overlapping_exons`: two parts with the same end coordinate -/
+def sharedEnds : List Part → Bool
+  | [] => false
+  | p :: ps => ps.any (·.hi == p.hi) || sharedEnds ps
+
+/-- `CDSCollection.__init__(location, …)` followed by `Feature.__init__`, in the order of the
+    checks: at most two parts, the second starting at 0; one strand; no exons sharing an end;
+    `start <= end`; no negative coordinate; two parts only on the forward strand -/
+def collectionInit (l : Loc) : InitResult :=
+  if l.parts.length > 1 && l.parts.length != 2 then .assertion
+  else if l.parts.length > 1 && ((l.parts.drop 1).head?.map (·.lo)).getD 0 != 0 then .valueError
+  else if !(l.parts.all fun p => p.strand == ((l.parts.head?.map (·.strand)).getD .none)) then .assertion
+  else if l.parts.length > 1 && sharedEnds l.parts then .valueError
+  else if l.start > l.end then .assertion
+  else if l.start < 0 then .valueError
+  else if l.parts.length > 1 && l.strand != .fwd then .valueError
+  else .ok
+
 /-! ### Region.get_unique_protoclusters -/
 
 /-- a `Protocluster` object: its Python identity (`Feature` defines neither `__eq__` nor
